@@ -40,6 +40,10 @@ def jobs(tier):
         for fw in ("flask", "fastapi"):
             out.append(dict(name=f"resolve:{fw}:{dn}:[[1,0]]", fn="resolve", params=dict(delim=d, fw=fw, shape=[[1, 0]]), budget_s=600,
                             group=f"resolve:{fw}", expect_outcomes=["302", "422"]))
+            if d == ":":
+                out.append(dict(name=f"resolve:{fw}:{dn}:[[0,0]]:earlier-request", fn="resolve",
+                                params=dict(delim=d, fw=fw, shape=[[0, 0]], earlier=True), budget_s=600,
+                                group=f"resolve:{fw}", expect_outcomes=["302", "422"]))
             if d == ":":    # a record that carries an identifier pattern (which the statement does not let the answer depend on)
                 out.append(dict(name=f"resolve:{fw}:{dn}:[[1,0]]:pattern", fn="resolve",
                                 params=dict(delim=d, fw=fw, shape=[[1, 0]], patterns=["^\\d{7}$"]), budget_s=600,
@@ -76,16 +80,21 @@ def get_routes(eng, conv):
 _CLIENTS = {}
 
 
-def real_request(eng, conv, fw, path):
-    """Concrete mode: drive the real in-process test client; returns (status, location)."""
+def real_request(eng, conv, fw, path, earlier=()):
+    """Concrete mode: drive the real in-process test client; returns (status, location) of the request for `path`, sent
+    after the requests for the paths in `earlier` to the same application."""
     resolver = eng.mods.resolver
     if fw == "flask":
-        app = resolver.get_flask_app(conv)
-        resp = app.test_client().get(path, follow_redirects=False)
+        client = resolver.get_flask_app(conv).test_client()
+        for e in earlier:
+            client.get(e, follow_redirects=False)
+        resp = client.get(path, follow_redirects=False)
         return resp.status_code, resp.headers.get("Location")
     from starlette.testclient import TestClient
-    app = resolver.get_fastapi_app(conv)
-    resp = TestClient(app).get(path, follow_redirects=False)
+    client = TestClient(resolver.get_fastapi_app(conv))
+    for e in earlier:
+        client.get(e, follow_redirects=False)
+    resp = client.get(path, follow_redirects=False)
     return resp.status_code, resp.headers.get("location")
 
 
@@ -149,10 +158,24 @@ def build(job):
         # (P, I): the CURIE p+delim+i split at its first delimiter, as everywhere else in the library
         P, _, I = (p + delim + i).partition(delim)
         eng.assume(And(z3.InRe(_s(P), pref), z3.InRe(_s(I), ident)))
+        earlier = []
+        if params.get("earlier"):
+            # the same application has answered another request before (same alphabets, independent strings)
+            p2, i2 = eng.var("p_earlier"), eng.var("i_earlier")
+            P2, _, I2 = (p2 + delim + i2).partition(delim)
+            eng.assume(And(z3.InRe(_s(P2), pref), z3.InRe(_s(I2), ident)))
+            earlier = [(p2, i2)]
         if eng.mods.symbolic:
             route, handler = get_routes(eng, conv)[fw]
             eng.assume(And(route.capture_constraints(_s(p), _s(i))))
             stubs = __import__("symcurie.stubs", fromlist=["x"])
+            for p2, i2 in earlier:
+                eng.assume(And(route.capture_constraints(_s(p2), _s(i2))))
+                try:
+                    if params_valid(eng, handler, dict(prefix=p2, identifier=i2)):
+                        handler(prefix=p2, identifier=i2)
+                except stubs.HTTPAbort:
+                    pass
             try:
                 if not params_valid(eng, handler, dict(prefix=p, identifier=i)):
                     raise stubs.HTTPAbort(422, "request validation")
@@ -161,7 +184,7 @@ def build(job):
             except stubs.HTTPAbort as e:
                 status, location = e.status_code, None
         else:
-            status, location = real_request(eng, conv, fw, "/" + p + delim + i)
+            status, location = real_request(eng, conv, fw, "/" + p + delim + i, ["/" + a + delim + b for a, b in earlier])
         owners = [r for r in recs if any(sym_eq(P, x) for x in r.all_p)]
         if owners:
             eng.expect(status == 302 and location is not None and sym_eq(location, owners[0].uri_prefix + I),
